@@ -4,7 +4,7 @@ mod_scgi and mod_proxy in front of scripted backends (lib/backend.py).
 Monitor (from the property text): what the strict client-side parser reads is the status, end-to-end header fields and body the
 backend produced; a backend stream that is truncated, malformed or cut off never arrives as a complete 2xx/3xx response."""
 import json, os, re, struct, sys
-import vlib, srv, backend
+import vlib, srv, backend, h2c
 sys.path.insert(0, os.path.join(vlib.VERIF, "props"))
 import C04 as H1
 from vlib import hx
@@ -238,11 +238,42 @@ def run_stream_mode(ctx, stream, scenarios, model, sanitize=False):
             except OSError as e: data, closed = b"<<error %s>>" % str(e).encode(), True
             out.append((data, closed))
             if not s.alive(): break
+            if sc["sid"] % 4 == 0 and sc["method"] == b"GET":
+                # the same backend behaviour seen by an HTTP/2 client
+                try:
+                    c = h2c.Conn(s.port, timeout=6.0)
+                    try: sc["h2"] = c.wait([c.send_request(b"GET", path + b"?id=%d" % sc["sid"], authority=b"h")])[0]
+                    finally: c.close()
+                except Exception: sc["h2"] = None
+                if not s.alive(): break
         alive = s.alive()
     finally:
         rc = s.stop(); fb.stop(); hb.stop(); sb.stop()
     crashed = (not alive) or rc in (98, 99) or (rc is not None and rc < 0 and rc != -15)
     return out, crashed, s.log()[-2000:] + getattr(s, "out", "")[-1500:]
+
+
+def judge_h2(sc, meaning, st):
+    """the same clauses for an HTTP/2 client: a stream that ends with END_STREAM and no RST_STREAM is what 'complete' looks like there"""
+    hd = dict(st["headers"]) if st and st.get("headers") else None
+    ended = bool(st) and st.get("done") and st.get("rst") is None and hd is not None
+    try: status = int(hd[b":status"]) if hd else None
+    except (KeyError, ValueError): status = None
+    if meaning[0] == "complete":
+        _, bstatus, hs, body = meaning
+        if hd is None: return "over HTTP/2: no response to a request whose backend answered completely"
+        if status != bstatus: return "over HTTP/2: backend said status %d, client got %s" % (bstatus, status)
+        own_page = bool(sc.get("brk")) and status >= 400 and st["body"].startswith(b"<!DOCTYPE html>")
+        if not ended and not own_page: return "over HTTP/2: the backend's complete response was not delivered completely (rst=%s)" % st.get("rst")
+        if st["body"] != body and not own_page: return "over HTTP/2: body differs: backend produced %d bytes, client got %d" % (len(body), len(st["body"]))
+    elif sc["brk"] != "bad-header":
+        if ended and status is not None and 200 <= status < 400 and status != 304:
+            why = ("over HTTP/2: backend stream was broken (%s, end=%s) but the client's stream ended normally (END_STREAM, no RST_STREAM) with a %d response of %d bytes"
+                   % (sc["brk"], sc["end"], status, len(st["body"])))
+            if sc["body"].startswith(st["body"]) or st["body"][:48] in sc["stream"]:
+                return (why + ": the part of the body that had arrived", "partial-content-with-computed-length")
+            return why
+    return None
 
 
 def enc_sc(sc):
@@ -286,6 +317,8 @@ def run(ctx):
             total += 1; complete += meaning[0] == "complete"
             key = "%s/%s/%s" % (sc["kind"], sc["brk"] or "ok", meaning[0]); dist[key] = dist.get(key, 0) + 1
             why = judge(sc, meaning, data, closed, [sc["method"], b"GET"])
+            if not why and "h2" in sc:
+                why = judge_h2(sc, meaning, sc["h2"]); dist["over-http2"] = dist.get("over-http2", 0) + 1
             klass = None
             if isinstance(why, tuple): why, klass = why
             if why:
